@@ -35,6 +35,10 @@ type Cfg struct {
 	// instance and assign its exported fields (anything an implementation
 	// remembered at construction time is then stale).
 	Via bool `json:"via_public_fields,omitempty"`
+	// Used: the instance has already served another (short) series when it is
+	// handed out (anything an implementation keeps from an earlier use is then
+	// in the way).
+	Used bool `json:"after_a_first_use,omitempty"`
 }
 
 // Inst is a live indicator instance.
@@ -88,7 +92,7 @@ func Add(rows ...*Indicator) {
 	for _, ind := range rows {
 		ind := ind
 		direct := ind.New
-		ind.New = func(c Cfg) Inst {
+		build := func(c Cfg) Inst {
 			if !c.Via {
 				return direct(c)
 			}
@@ -103,8 +107,46 @@ func Add(rows ...*Indicator) {
 			}
 			return d
 		}
+		ind.New = func(c Cfg) Inst {
+			used := c.Used
+			c.Used = false
+			inst := build(c)
+			if used {
+				firstUse(inst, len(ind.In))
+			}
+			return inst
+		}
 	}
 	Indicators = append(Indicators, rows...)
+}
+
+// firstUse runs a short, unrelated series through the instance and drains
+// every output.
+func firstUse(inst Inst, nIn int) {
+	n := 2*inst.Idle + 5
+	ins := make([]<-chan float64, nIn)
+	for k := range ins {
+		c := make(chan float64)
+		ins[k] = c
+		go func(k int) {
+			defer close(c)
+			for i := 0; i < n; i++ {
+				c <- 900 + float64((i*7+k*3)%11) + float64(k) // far from the prices the checks use
+			}
+		}(k)
+	}
+	outs := inst.Compute(ins)
+	done := make(chan struct{}, len(outs))
+	for _, o := range outs {
+		go func(o <-chan float64) {
+			for range o {
+			}
+			done <- struct{}{}
+		}(o)
+	}
+	for range outs {
+		<-done
+	}
 }
 
 // assignExported assigns every exported field of *src to *dst (same pointer
